@@ -23,10 +23,12 @@ class P(vlib.Prop):
             "(duplicated processor, no receivers, no exporters).  The real graph.Build runs with instrumented "
             "factories (connectors from xconnector.NewFactory or from the stable connector.NewFactory; plain components from "
             "the x* or the stable NewFactory constructors), then StartAll, then one fresh and one read-only tagged payload is "
-            "injected at every receiver instance (mutating processors/connectors, some mutating exporters); compared with "
+            "injected at every receiver instance (mutating processors/connectors, some mutating exporters), then a fault pass in "
+            "which each processor/exporter/connector refuses with probability 0.2; component and pipeline names follow one of "
+            "four schemes (decimal, case-only differences, long common prefix, non-ASCII + long suffix); compared with "
             "the Coq model: Validate verdict, build error class (+ the named unsupported use / the reported cycle), "
             "multiset of created and of started component nodes, per receiver the multiset of (exporter, trail) for both "
-            "payloads, per connector instance the router's pipeline ids. "
+            "payloads and under faults (+ error returned to the receiver), per connector instance the router's pipeline ids. "
             "Thorough tier: 4500 random configurations plus EVERY configuration of two pipelines (ids among traces/p0, "
             "traces/p1, metrics/p0; receivers and exporters any non-empty subset of {plain 0, connector 10}; zero or one "
             "processor; connector 10 supporting all pairs / same-signal pairs / traces->metrics only): 5832 configurations. "
